@@ -568,7 +568,9 @@ impl World {
                     let c = talloc::subject(|| match op.b {
                         0 => CellRef::L(Gc::new(mc, Lock::new(None))),
                         1 => CellRef::R(Gc::new(mc, RefLock::new(None))),
-                        _ => CellRef::O(Gc::new(mc, OnceLock::new())),
+                        2 => CellRef::O(Gc::new(mc, OnceLock::new())),
+                        3 => CellRef::W(Gc::new(mc, Lock::new(None))),
+                        _ => CellRef::WR(Gc::new(mc, RefLock::new(None))),
                     });
                     talloc::register_gc(c.addr(), base + id as u32);
                     unlock!(Gc::write(mc, w.node(m, op.a)), Node, cell).set(Some(c));
@@ -585,6 +587,31 @@ impl World {
                     Ok(())
                 })?;
                 self.sh.objs[op.a as usize].cell = None;
+            }
+            K::CellSetWeak | K::CellSetWeakNew => {
+                let cid = self.sh.objs[op.a as usize].cell.expect("cell");
+                let newid = if op.k == K::CellSetWeakNew { Some(self.alloc_id(KNODE)) } else { None };
+                let r = self.with_mutate(|w, mc, _, m| {
+                    let c = m[cid as usize].unwrap().cell();
+                    let (g, addr) = match newid {
+                        Some(nid) => {
+                            let g = new_node(mc, base + nid as u32);
+                            (g, Gc::as_ptr(g) as usize)
+                        }
+                        None => (w.node(m, op.b), 0),
+                    };
+                    match c {
+                        CellRef::W(l) => l.set(mc, Some(Gc::downgrade(g))),
+                        CellRef::WR(l) => *l.borrow_mut(mc) = Some(Gc::downgrade(g)),
+                        _ => unreachable!(),
+                    }
+                    Ok(addr)
+                })?;
+                let Caught::Done(addr) = r else { viol!("api.panic", "unexpected injected panic") };
+                if let Some(nid) = newid {
+                    self.addrs.push((addr, nid));
+                }
+                self.sh.objs[cid as usize].w = Some(newid.unwrap_or(op.b));
             }
             K::CellSet | K::CellSetNew | K::CellClear | K::CellInit | K::CellInitNew => {
                 let cid = self.sh.objs[op.a as usize].cell.expect("cell");
@@ -625,7 +652,10 @@ impl World {
                 }
                 let o = &mut self.sh.objs[cid as usize];
                 match op.k {
-                    K::CellClear => o.s[0] = None,
+                    K::CellClear => {
+                        o.s[0] = None;
+                        o.w = None;
+                    }
                     K::CellInitNew => {
                         let nid = newid.unwrap();
                         if got != Some(base + nid as u32) {
@@ -793,6 +823,18 @@ impl World {
                 let hs: &World = self;
                 let Caught::Done(h) = guarded("DynamicRoot::clone", || hs.href(op.a as usize).unwrap().clone())? else { unreachable!() };
                 self.hs[op.b as usize] = Some(h);
+                self.sh.handles[op.b as usize] = self.sh.handles[op.a as usize];
+            }
+            K::CloneFromH => {
+                let src = self.hs[op.a as usize].take().expect("source handle");
+                let mut dst = self.hs[op.b as usize].take().expect("target handle");
+                let r = guarded("DynamicRoot::clone_from", || {
+                    dst.clone_from(&src);
+                    dst
+                });
+                self.hs[op.a as usize] = Some(src);
+                let Caught::Done(dst) = r? else { unreachable!() };
+                self.hs[op.b as usize] = Some(dst);
                 self.sh.handles[op.b as usize] = self.sh.handles[op.a as usize];
             }
             K::DropH => {
@@ -1140,6 +1182,20 @@ impl World {
                                 link(fc, this.node(&m, op.b), op.c, Some(g));
                             }
                         }
+                        // after the callback's own barriers and resurrections: whatever was strongly reachable is
+                        // still not dead (a barrier may have re-queued it), the resurrected object is alive
+                        for (id, o) in m.iter().enumerate() {
+                            if let Some(Obj::Node(g)) = o {
+                                if Gc::is_dead(fc, *g) || Gc::downgrade(*g).is_dead(fc) {
+                                    viol!("c07.reachable_dead", "strongly reachable object {id} reports is_dead after a resurrection / store in the same finalize callback");
+                                }
+                            }
+                        }
+                        if let Some(g) = res {
+                            if Gc::is_dead(fc, g) || wk.is_dead(fc) {
+                                viol!("c07.resurrected_dead", "object {t} reports is_dead right after it was resurrected");
+                            }
+                        }
                         if op.k == K::PFin {
                             injected_panic();
                         }
@@ -1207,5 +1263,15 @@ pub fn cell_set<'gc>(mc: &Mutation<'gc>, c: CellRef<'gc>, v: Option<NodeGc<'gc>>
             true
         }
         CellRef::O(g) => g.set(mc, v.expect("OnceLock cannot be cleared")).is_ok(),
+        CellRef::W(g) => {
+            assert!(v.is_none());
+            g.set(mc, None);
+            true
+        }
+        CellRef::WR(g) => {
+            assert!(v.is_none());
+            *g.borrow_mut(mc) = None;
+            true
+        }
     }
 }
